@@ -7,6 +7,7 @@ import (
 	"fmt"
 	"io"
 	"log"
+	"math"
 	"math/rand"
 	"net/http"
 	"net/http/httptest"
@@ -260,9 +261,15 @@ func streamHTTP(o opts) {
 		if r.Intn(5) == 0 {
 			cfg.DisableBodySizeLimit = true
 		}
-		if r.Intn(3) == 0 {
+		switch r.Intn(6) {
+		case 0, 1:
 			cfg.CacheableStatus = []int{200, 404}
+		case 2:
+			cfg.CacheableStatus = []int{} // configured, and empty: no status is cacheable
 		}
+		// every third middleware keeps the policy New installed (the configuration resolved inside New); the TTL is
+		// then read back from the stored entry instead of from a wrapping policy
+		ownPolicy := mi%3 == 2
 		mw, err := httpcache.New(cfg)
 		must(err)
 		mw.SetKeyGenerator(httpcache.KeyWithoutQuery())
@@ -271,13 +278,15 @@ func streamHTTP(o opts) {
 		var polOK bool
 		var polTTL time.Duration
 		var polCalled bool
-		mw.SetCachePolicy(func(req *http.Request, st int, h http.Header, body []byte) (bool, time.Duration) {
-			ok, ttl := def(req, st, h, body)
-			polMu.Lock()
-			polOK, polTTL, polCalled = ok, ttl, true
-			polMu.Unlock()
-			return ok, ttl
-		})
+		if !ownPolicy {
+			mw.SetCachePolicy(func(req *http.Request, st int, h http.Header, body []byte) (bool, time.Duration) {
+				ok, ttl := def(req, st, h, body)
+				polMu.Lock()
+				polOK, polTTL, polCalled = ok, ttl, true
+				polMu.Unlock()
+				return ok, ttl
+			})
+		}
 		scripts := map[string][]hact{}
 		retainedS := map[string][][]string{}
 		retainedB := map[string][][]byte{}
@@ -515,10 +524,32 @@ func streamHTTP(o opts) {
 			}
 			obs := &toks{}
 			key := method + ":" + path
-			resp, _, stored := mw.VerifPeek(key)
+			resp, rem, stored := mw.VerifPeek(key)
 			polMu.Lock()
 			pOK, pTTL, pCalled := polOK, polTTL, polCalled
 			polMu.Unlock()
+			if ownPolicy {
+				// reconstruct the TTL the internal policy chose from what is left of it (whole seconds for max-age)
+				pOK, pCalled = stored, stored
+				switch {
+				case !stored:
+				case rem < 0:
+					pTTL = -1
+					m.violate("C13", fmt.Sprintf("a response was stored without an expiry (must live for max-age, a future Expires or the default TTL): script=%v", acts), path)
+				case rem > cfg.DefaultTTL-10*time.Second && rem <= cfg.DefaultTTL:
+					pTTL = cfg.DefaultTTL
+				case rem > 2*time.Hour-time.Minute && rem <= 2*time.Hour:
+					pTTL = 2*time.Hour - time.Second
+				case rem > time.Duration(math.MaxInt64)-time.Hour:
+					pTTL = time.Duration(math.MaxInt64) // the clamped max-age: the deadline saturates
+				default:
+					secs := int64(rem / time.Second)
+					if rem%time.Second != 0 {
+						secs++
+					}
+					pTTL = time.Duration(secs) * time.Second
+				}
+			}
 			var second, third clientView
 			if stored {
 				kind := int64(1)
